@@ -116,7 +116,7 @@ def make_shards(tier, ops=None, regimes=("R1", "R3"), typed=True, prefix=""):
                         d["no_twin"] = True  # typed move_to is documented as unsupported
                     out.append(d)
                     # explicit ids: equal-comparing siblings in typed trees
-                    if op in ("add", "copy_node", "prepend_sibling", "append_sibling", "remove") and 2 <= n <= 2 + (tier != "quick"):
+                    if op in (("copy_node", "prepend_sibling", "append_sibling", "remove") if tier == "quick" else ("add", "copy_node", "prepend_sibling", "append_sibling", "remove")) and 2 <= n <= 2 + (tier != "quick"):
                         d2 = dict(d, regime="R3", name=d["name"].replace("typed-", "typed-R3-"))
                         out.append(d2)
     return out
